@@ -12,6 +12,8 @@ type Form struct {
 	Family  string // "" = core
 	WritesM bool   // inserts into / deletes from m (not placed inside `range m`)
 	Prims   bool   // needs the machine import
+	Decls   string // extra top-level declarations (emitted once per form)
+	Sync    bool   // needs the sync import
 }
 
 func f(id, code string) Form { return Form{ID: id, Code: code} }
